@@ -6,7 +6,13 @@
    [gov ct pt s n] is the rule governing name n in object state s (instance trait first);
    [Inv ct pt s ls] is the invariant of all states reached by histories that avoid the
    listed finding ([clean_run]: no add_trait of a value-less policy over a value already in
-   obj.__dict__), see [reachable_states_satisfy_invariant]. *)
+   obj.__dict__) and use plain traits only ([plain_class], [clean_run]: no mapped trait, i.e.
+   no Map whose shadow attribute name_ is written behind the scenes), see
+   [reachable_states_satisfy_invariant].  Mapped traits are modelled (Model.step: add_trait
+   installs the shadow trait, Map.post_setattr assigns name_, remove_trait removes both), checked
+   against the implementation by the correspondence and the law, and covered by the direct
+   theorems [add_mapped_trait_installs_shadow], [remove_mapped_trait_clears_derived_name],
+   [remove_trait_restores_class_rule_for_derived_names] at the end. *)
 From Coq Require Import ZArith List Bool.
 From TV Require Import Common.Harness C13.Model C13.Law C13.Corr C13.Proofs.
 Import ListNotations.
@@ -21,6 +27,7 @@ Open Scope Z_scope.
    the implementation uses [mro_rule] ("inherited" along the MRO): see the next theorems. *)
 Theorem law_holds_on_every_history :
   forall (h : list classdef) (c : nat) (ops : list op) (i : Z),
+    plain_class h c = true ->
     clean_run (snd (class_tables h c)) (init_state (fst (class_tables h c))) ops = true ->
     law_hist (spec_rule h c) i l_init
              (run (snd (class_tables h c)) (init_state (fst (class_tables h c))) ops) = [].
@@ -32,6 +39,7 @@ Print Assumptions law_holds_on_every_history.
 Theorem law_holds_under_mro_reading :
   forall (h : list classdef) (c : nat) (ops : list op) (i : Z),
     (forall n, mro_rule h c n = spec_rule h c n) ->
+    plain_class h c = true ->
     clean_run (snd (class_tables h c)) (init_state (fst (class_tables h c))) ops = true ->
     law_hist (mro_rule h c) i l_init
              (run (snd (class_tables h c)) (init_state (fst (class_tables h c))) ops) = [].
@@ -48,6 +56,7 @@ Print Assumptions mro_and_base_order_agree_on_single_inheritance.
 Theorem law_holds_on_single_inheritance_hierarchies :
   forall (h : list classdef) (c : nat) (ops : list op) (i : Z),
     single h = true -> (c < length (roots ++ h))%nat ->
+    plain_class h c = true ->
     clean_run (snd (class_tables h c)) (init_state (fst (class_tables h c))) ops = true ->
     law_hist (mro_rule h c) i l_init
              (run (snd (class_tables h c)) (init_state (fst (class_tables h c))) ops) = [].
@@ -113,7 +122,8 @@ Theorem reachable_states_satisfy_invariant :
 Proof. exact final_Inv. Qed.
 Print Assumptions reachable_states_satisfy_invariant.
 
-Theorem fresh_object_satisfies_invariant : forall ct pt, Inv ct pt (init_state ct) l_init.
+Theorem fresh_object_satisfies_invariant :
+  forall ct pt, plain_tab ct = true -> plain_tab pt = true -> Inv ct pt (init_state ct) l_init.
 Proof. exact Inv_init. Qed.
 Print Assumptions fresh_object_satisfies_invariant.
 
@@ -250,6 +260,7 @@ Print Assumptions untyped_names_accept_any_value.
    second instance still satisfies the law. *)
 Theorem second_instance_shares_only_the_cache :
   forall (h : list classdef) (c : nat) (pre ops : list op) (i : Z),
+    plain_class h c = true ->
     let t := class_tables h c in
     clean_run (snd t) (init_state (fst t)) pre = true ->
     let s2 := mkState (s_ctd (final_state (snd t) (init_state (fst t)) pre)) [] [] in
@@ -286,6 +297,7 @@ Print Assumptions late_class_inherits_cache_refuted.
    other, the shared class dictionary (with the cached resolutions) never changes a rule. *)
 Theorem two_interleaved_instances_obey_the_law :
   forall (h : list classdef) (c : nat) (ops : list (bool * op)) (i : Z),
+    plain_class h c = true ->
     clean_run2 (snd (class_tables h c)) (init_state2 (fst (class_tables h c))) ops = true ->
     law_hist2 (spec_rule h c) i l_init l_init
               (run2 (snd (class_tables h c)) (init_state2 (fst (class_tables h c))) ops) = [].
@@ -303,6 +315,45 @@ Theorem law_codes_relabelling_is_faithful_for_two_instances :
 Proof. exact law_tag2_nil. Qed.
 Print Assumptions law_codes_relabelling_is_faithful_for_two_instances.
 
+(* ---- mapped traits (Map): statements about Model.step in every state, no invariant ---- *)
+Theorem add_mapped_trait_installs_shadow :
+  forall pt s n m d,
+    let s' := fst (step pt s (OAdd n (PMap m d))) in
+    assoc n (s_itd s') = Some (PMap m d) /\ assoc (n ++ [US]) (s_itd s') = Some (PShadow m) /\
+    s_od s' = s_od s.
+Proof. exact add_mapped_installs. Qed.
+Print Assumptions add_mapped_trait_installs_shadow.
+
+(* remove_trait(name) of a mapped instance trait removes the trait, the shadow trait of name_,
+   the value and the shadow value (the seeded change C13-m3 leaves the shadow value behind) *)
+Theorem remove_mapped_trait_clears_derived_name :
+  forall pt s n m d,
+    assoc n (s_itd s) = Some (PMap m d) ->
+    (assoc (n ++ [US]) (s_itd s) <> None \/ amem (n ++ [US]) (s_ctd s) = true) ->
+    let s' := fst (step pt s (ORem n)) in
+    o_out (snd (step pt s (ORem n))) = Val 1 /\
+    assoc n (s_itd s') = None /\ assoc (n ++ [US]) (s_itd s') = None /\
+    assoc n (s_od s') = None /\ assoc (n ++ [US]) (s_od s') = None.
+Proof. exact remove_mapped_clears. Qed.
+Print Assumptions remove_mapped_trait_clears_derived_name.
+
+(* ... hence name and name_ are governed by the class-level rule again and nothing stale is stored *)
+Theorem remove_trait_restores_class_rule_for_derived_names :
+  forall ct pt s n m d,
+    assoc n (s_itd s) = Some (PMap m d) ->
+    (assoc (n ++ [US]) (s_itd s) <> None \/ amem (n ++ [US]) (s_ctd s) = true) ->
+    let s' := fst (step pt s (ORem n)) in
+    gov ct pt s' n = model_rule ct pt n /\ gov ct pt s' (n ++ [US]) = model_rule ct pt (n ++ [US]) /\
+    assoc n (s_od s') = None /\ assoc (n ++ [US]) (s_od s') = None.
+Proof. exact remove_mapped_restores_class_rule. Qed.
+Print Assumptions remove_trait_restores_class_rule_for_derived_names.
+
+(* on plain traits Model.step is the plain look-up + handlers the invariant proofs reason about *)
+Theorem model_step_on_plain_traits :
+  forall ct pt s ls o, Inv ct pt s ls -> clean_step s o = true -> step pt s o = step_p pt s o.
+Proof. exact step_plain_eq. Qed.
+Print Assumptions model_step_on_plain_traits.
+
 (* Non-vacuity: a hierarchy with overlapping wildcards in two bases under a strict and a
    private root; a clean history with an instance trait shadowing and being removed, a
    ReadOnly defined once, a Constant, an Event; outcomes of every class occur. *)
@@ -316,9 +367,22 @@ Definition ex_ops : list op :=
     OAdd [99] (PAny 5); OSet [99] 6; OGet [99]; ORem [99]; OGet [99] ].
 Example history_nontrivial :
   let t := class_tables ex_h 5 in
+  plain_class ex_h 5 = true /\
   clean_run (snd t) (init_state (fst t)) ex_ops = true /\
   map (fun p => o_out (snd p)) (run (snd t) (init_state (fst t)) ex_ops) =
   [ Done; Raise TraitError; Raise AttributeError; Done; Val 3; Raise TraitError;
     Done; Raise TraitError; Val 1; Raise AttributeError; Raise TraitError; Done; Val 101;
     Done; Done; Val 6; Val 1; Raise AttributeError ].
-Proof. vm_compute. split; reflexivity. Qed.
+Proof. vm_compute. repeat split; reflexivity. Qed.
+
+(* Non-vacuity for mapped traits: strict class; add_trait("ab", Map({1: 11, 2: 12})), read, assign,
+   remove_trait: ab_ reads 11, 12, then AttributeError again (the demo of seeded change C13-m3) *)
+Example mapped_history :
+  let t := class_tables [mkClass [] [1%nat]] 3 in
+  map (fun p => o_out (snd p))
+      (run (snd t) (init_state (fst t))
+           [OGet [97; 98; 95]; OAdd [97; 98] (PMap [(1, 11); (2, 12)] 1); OGet [97; 98]; OGet [97; 98; 95];
+            OSet [97; 98] 2; OGet [97; 98; 95]; OSet [97; 98] 5; ORem [97; 98]; OGet [97; 98; 95]; OSet [97; 98; 95] 1]) =
+  [Raise AttributeError; Done; Val 1; Val 11; Done; Val 12; Raise TraitError; Val 1;
+   Raise AttributeError; Raise TraitError].
+Proof. vm_compute. reflexivity. Qed.
